@@ -39,6 +39,8 @@ where
         if let Ok(event) = self.events.try_recv() {
             return Poll::Ready(Some(CommandOutput::Event(event)));
         }
+        #[cfg(crux_verif)]
+        crate::verif::schedule_point("poll_next:settled");
 
         if let Ok(effect) = self.effects.try_recv() {
             return Poll::Ready(Some(CommandOutput::Effect(effect)));
